@@ -5,5 +5,5 @@ set -e
 cd "$(dirname "$0")"
 /venv/bin/python tools/extract.py >/dev/null
 cd lean
-lake build Supv $(grep -o 'name = "drv_[a-z0-9_]*"' lakefile.toml | sed 's/name = "\(.*\)"/\1/')
+lake build Supv $(ls run | sed -n "s/^C\([0-9]*\)\.lean$/drv_c\1/p")
 echo "setup ok"
